@@ -179,7 +179,9 @@ CHECKS = {
         "C11_send_receive / C11_send_receive_prefix: the byte stream the sender model (send_message + handle_can_send) makes of "
         "any list of payloads within the size limit is delivered by the receiver as exactly that list, in order, with no refusal "
         "and no pending byte, for every fragmentation; every prefix of the connection has delivered a prefix of the list; "
-        "C11_oversize_refused shows the size premise is necessary.",
+        "C11_oversize_refused shows the size premise is necessary. C11_sender_drained / _progress / _sender_receiver_prefix / "
+        "_sender_receiver_complete: the same for the sender's buffer/backlog/writability state machine under every interleaving "
+        "of send_message calls and socket writes of any sizes.",
    note="Sending side tied by driving the real ConnectedRemotePeer.send_message/handle_can_send (stub socket taking 1..all bytes "
         "per send) and comparing the bytes written with the extracted send_stream. "
         "Hand model tied to the real MessageReceiver by running both on every 1-, 2-, 3-way and byte-wise cut of generated short "
